@@ -9,6 +9,7 @@ CONSTANTS
   MaxN = 3
   MaxRedirects = 3
   Combos <- CombosQ
+  HistKinds <- KindsQ
   Parts = 1
   Part = 0
   MaxLen = 0
